@@ -217,11 +217,11 @@ def run(ctx):
     bt = [v["name"] for v in prog.adt("bemodel::types::common::BoundaryType")["variants"]]
     tilts = [v["name"] for v in prog.adt("bemodel::types::common::Tilt")["variants"]]
     kinds = [v["name"] for v in prog.adt("bemodel::types::thermalbridge::ThermalBridgeKind")["variants"]]
-    filt = [ch for (b, t, ch) in root.children() if ch.via[0] == "filter" and (ch.via[1].source_name() or "").endswith("props.walls")]
+    filt = [ch for (b, t, ch) in root.children() if ch.via[0] == "filter" and ((ch.via[1].source_name() if ch.via[1] is not None else None) or "").endswith("props.walls")]
     ctx.require(len(filt) >= 1, "KData::from: wall filter not found")
     scope_table(ctx, "c08.scope", "c08.scope|opaques", filt, ["is_tenv", "bounds"], {"bounds": bt},
                 lambda a: a["is_tenv"] and a["bounds"] in ("EXTERIOR", "GROUND"), f.loc())
-    wfil = [ch for sc in root.all_scopes() for (b, t, ch) in sc.children() if ch.via[0] == "filter" and (ch.via[1].source_name() or "").endswith("props.windows")]
+    wfil = [ch for sc in root.all_scopes() for (b, t, ch) in sc.children() if ch.via[0] == "filter" and ((ch.via[1].source_name() if ch.via[1] is not None else None) or "").endswith("props.windows")]
     ctx.require(len(wfil) == 1, "KData::from: window filter not found")
     rn = returned_nodes(wfil[0].body)
     d0 = origin_desc(strip(wfil[0]._rw(rn[0][1]))) if len(rn) == 1 else ""
